@@ -16,7 +16,7 @@ The semantics are the ones the executor implements (engine/executor):
   `min` / `max` take the earliest point among equal values (`MinMerge`, `MaxMerge`);
 * buckets are `[k*w, (k+1)*w)` in epoch time; an aggregate statement with buckets returns every
   bucket from the one holding the lower bound to the one holding the upper bound for each group
-  that has a row in range; `count` of an empty bucket is 0 under fill(null)
+  whose calls have a value somewhere in range; `count` of an empty bucket is 0 under fill(null)
   (`NewNullFillProcessor`), null under fill(previous) until a bucket has a value;
   fill(previous) takes the value of the previous bucket *in output order*;
 * groups are ordered by tag value, reversed in a descending statement; limit / offset apply to
@@ -25,6 +25,8 @@ Integers are exact; a float is carried as an integer code (value * 8: the genera
 dyadic, every sum is exact); a mean is the pair (sum, count).
 Core-only, executable.
 -/
+import OG.Generated.C08
+
 namespace OG.C08
 
 /-- epoch second of relative time 0 (engx.BaseTime). -/
@@ -189,15 +191,19 @@ abbrev Pt := Int × Int
 def pointsOf (c : Col) (rows : List Row) : List Pt :=
   rows.filterMap (fun r => (r.cell c).map (fun v => (r.t, v)))
 
-/-- `b` replaces the current choice `a`. -/
+/-- `b` replaces the current choice `a`: the tie rules are the ones regenerated from
+`FirstMerge`, `LastMerge`, `MinMerge`, `MaxMerge`, `BooleanFirstMerge`, `BooleanLastMerge`
+(OG.Gen.C08, translated by ogfacts from engine/executor/agg_func.go). -/
 def Fn.better (f : Fn) (isBool : Bool) (a b : Pt) : Bool :=
   match f with
-  | .min => decide (b.2 < a.2) || (b.2 == a.2 && decide (b.1 < a.1))
-  | .max => decide (b.2 > a.2) || (b.2 == a.2 && decide (b.1 < a.1))
+  | .min => OG.Gen.C08.minTakes false a.1 b.1 a.2 b.2
+  | .max => OG.Gen.C08.maxTakes false a.1 b.1 a.2 b.2
   | .first =>
-    if isBool then decide (b.1 < a.1) || (b.1 == a.1 && decide (b.2 < a.2))
-    else decide (b.1 < a.1) || (b.1 == a.1 && decide (b.2 > a.2))
-  | .last => decide (b.1 > a.1) || (b.1 == a.1 && decide (b.2 > a.2))
+    if isBool then OG.Gen.C08.boolFirstTakes false a.1 b.1 (a.2 != 0) (b.2 != 0)
+    else OG.Gen.C08.firstTakes false a.1 b.1 a.2 b.2
+  | .last =>
+    if isBool then OG.Gen.C08.boolLastTakes false a.1 b.1 (a.2 != 0) (b.2 != 0)
+    else OG.Gen.C08.lastTakes false a.1 b.1 a.2 b.2
   | _ => false
 
 def pick (f : Fn) (isBool : Bool) (a b : Pt) : Pt := if f.better isBool a b then b else a
@@ -282,7 +288,9 @@ def Query.evalAgg (q : Query) (rows : List Row) : List OutRow :=
     else
       match q.lo, q.hi with
       | some lo, some hi =>
-        q.bucketRows rows (bucketStarts q.interval lo hi q.asc) (q.calls.map (fun _ => Val.null))
+        -- a group none of whose calls has a value anywhere in range is not returned
+        if (q.callVals rows).all (fun x => x.1 == .null) then []
+        else q.bucketRows rows (bucketStarts q.interval lo hi q.asc) (q.calls.map (fun _ => Val.null))
       | _, _ => []
 
 /-! ### the statement -/
